@@ -2,7 +2,7 @@ import warnings
 
 import numpy as np
 from sklearn.neural_network._stochastic_optimizers import SGDOptimizer
-from sklearn.utils import check_random_state
+from sklearn.utils import check_array, check_random_state
 
 
 def check_groups(groups, n_features_in):
@@ -68,6 +68,7 @@ def _path(clf, X, y=None, alpha_multiplier=1.05, min_features=2, keep_threshold=
 
 def _run_path(clf, X, y=None, alpha_multiplier=1.05, min_features=2, keep_threshold=0.9,
               early_stopping_factor=0.99, max_patience=10):
+    X = check_array(X)
     if alpha_multiplier <= 1:
         warnings.warn(f"The alpha multiplier is lower or equal to 1. This will not increase alpha during the path. "
                       f"Setting it again to default parameters: 1.05")
